@@ -320,6 +320,12 @@ impl Units {
                 v.push(alias.clone());
                 continue;
             }
+            // a prefixed spelling is only an identifier if the alias itself could continue one: `G″` is read as
+            // `G` followed by `″` (the arcsecond alias `″` is declared to accept prefixes — a known finding of
+            // C13 — but such a spelling is not a way to *write* the prefixed unit)
+            if !alias.chars().next().map(|c| c.is_alphabetic()).unwrap_or(false) {
+                continue;
+            }
             if *short {
                 if let Some(p) = prefix_short(prefix.0, prefix.1) {
                     v.push(format!("{}{}", p, alias));
